@@ -120,6 +120,12 @@ def run(cx):
                         if m:
                             truth = (m.group(3) != '0') if m.group(1) == 'Eq' else (m.group(3) == '0')
                             digit.append(('=' if truth else '!=') + chr(int(m.group(2))))
+                    if not digit:
+                        # `match digit { b'1' => .., b'2' => .., _ => {} }`: an integer switch on the digit itself
+                        for c in select_conds(fn, P, b, cn):
+                            m = re.match(r'^each\((?:bytes|chars|iter)\(.*\)\)=(49|50)$', c)
+                            if m:
+                                digit = ['=1'] if m.group(1) == '49' else ['!=1', '=2']
                     args = [I.shorten_vars(cn.c(a)) for a in G.call_args(fn, P, b)]
                     key = last(t['fn']['name'])
                     if key == 'sm9_u256_eval_g_line':
@@ -128,7 +134,9 @@ def run(cx):
             want = [('fp_sqr', ()), ('sm9_u256_eval_g_tangent', ()), ('fp_line_mul', ()),
                     ('sm9_u256_eval_g_line($q)', ('=1',)), ('fp_line_mul', ('=1',)),
                     ('sm9_u256_eval_g_line(G2.point_neg($q))', ('!=1', '=2')), ('fp_line_mul', ('!=1', '=2'))]
-            cx.add('I-MILLER', 'loop-body', seq == want, 'per digit: f = f^2 * l_{T,T}(P); digit 1: f *= l_{T,Q}(P); digit 2 (-1): f *= l_{T,-Q}(P): %s' % seq, fn.loc())
+            # the two digit arms exclude each other: each is compared in its own order, the unconditional part in its own
+            groups = lambda xs: {d_: [k_ for k_, dd_ in xs if dd_ == d_] for d_ in {dd_ for _, dd_ in xs}}
+            cx.add('I-MILLER', 'loop-body', groups(seq) == groups(want), 'per digit: f = f^2 * l_{T,T}(P); digit 1: f *= l_{T,Q}(P); digit 2 (-1): f *= l_{T,-Q}(P): %s' % seq, fn.loc())
         tail = []
         if lp:
             for b, t in fn.calls():
